@@ -327,6 +327,8 @@ class MultiByteValue(Value):
             raise ValueTypeError("multi-byte declarations must have a comma in them")
         values = value.split(",")
         self.hex_array = [NumericValue(x).hex(size=2) for x in values if x != ""]
+        if any(len(x) != 2 for x in self.hex_array):
+            raise ValueTypeError("[{}] has a value that does not fit in 8 bits".format(value))
 
     def hex(self, size=0):
         return "".join(self.hex_array)
@@ -350,6 +352,8 @@ class MultiWordValue(Value):
             raise ValueTypeError("multi-word declarations must have a comma in them")
         values = value.split(",")
         self.hex_array = [NumericValue(x).hex(size=4) for x in values if x != ""]
+        if any(len(x) != 4 for x in self.hex_array):
+            raise ValueTypeError("[{}] has a value that does not fit in 16 bits".format(value))
 
     def hex(self, size=0):
         return "".join(self.hex_array)
